@@ -12,6 +12,7 @@ CONSTANTS
   DirectOpen = TRUE
   QueryOpen = FALSE
   QueryTouches = FALSE
+  Routes = {"contract", "direct"}
   TallyOnly = FALSE
 VIEW view
 CONSTRAINT Viable
